@@ -153,6 +153,6 @@ def bounded(tier, seed):
                 n += 1
                 if f:
                     bad.append(({"kind": kind, "nv": nv, "nh": nh, "seed": s, "regime": "magnitudes up to 30"}, f[:2]))
-    return {"driver": "drivers/C01.native_check + large_regime", "label": "bounded", "evaluations": n, "failures": len(bad),
-            "bound": "float64, %d architectures x 3 random parameter draws (non-zero biases, gaussian scale 1, 3, 6/size) and 2 draws with magnitudes up to 30 compared in the log domain" % len(archs),
+    return {"driver": "drivers/C01.native_check + large_regime + tied_regime", "label": "bounded", "evaluations": n, "failures": len(bad),
+            "bound": "float64, %d architectures x 3 random parameter draws (non-zero biases, gaussian scale 1, 3, 6/size) 2 draws with magnitudes up to 30 compared in the log domain, and one permutation-symmetric setting with tied largest weights (also with shuffled basis rows)" % len(archs),
             "first_failures": bad[:2]}
